@@ -132,7 +132,7 @@ TEXTS = {
 _ADD = {
  "C01": " Added later: vectored WriteBuffers calls, tuning calls in mid-connection, paced writers through outages of 4-70 s, any library clock offset (uptime, wrap points), and E7 (real loopback UDP).",
  "C02": " Added later: tuning calls in mid-connection, transient socket send errors (TestC02Session), flush intervals up to 5 s, any clock offset; a literal regression case for the repaired snd_una wedge.",
- "C03": " Added later: the receiving application enlarges its window at drawn moments, also in mid-stall.",
+ "C03": " Added later: the receiving application enlarges its window at drawn moments, also in mid-stall; TestC03WindowShrunk lowers it (at a drawn time, or at the moment the delivery queue is full with acknowledged segments parked behind it) and requires the transfer to resume and complete with every byte in order.",
  "C04": " Added later: timeouts are recognised by the model itself (a retransmitted segment whose fast-ack counter was just set to 0), not from the library's LostSegs counter; TestC04SessionWindow applies the sender-side window rule to real sessions with FEC, loss and stalled readers (the peer's window is read from regular data packets as they arrive; FEC-recovered packets must not count as news); a literal regression case for the repaired ack-only admission.",
  "C05": " Added later: a quarter of the hostile datagrams go through the simulated socket and the library's own receive loops, up to 65 000 bytes long; a literal regression case for the repaired oversize PUSH.",
  "C06": " Added later: a third of the corrupted / short / empty datagrams go through the simulated socket and the library's own receive loops.",
@@ -145,7 +145,7 @@ _ADD = {
  "C16": " Added later: TestC16SessionLazyDecoder - FEC at the sender only, through real sessions: the receiving session must keep its lazily created decoder, adopt the ratio within the bound and recover losses afterwards.",
  "C17": " Added later: tasks that submit tasks; 'never' deadlines a century away, past the year 2262 and at the largest time value.",
  "C18": " Added later: clock offsets at the wrap points in half of the clean-path runs; NoDelay called again in mid-connection (the floor in force is that of the last call from the next RTT sample on).",
- "C19": " Added later: TestC19ClosedSession (OOB calls on closed sessions under the pool sanitizer), TestC19OneSidedFEC (FEC at one end only: the other end keeps refusing the OOB calls for the whole connection), TestC19ForeignConvOOB with any conversation id.",
+ "C19": " Added later: TestC19ClosedSession (OOB calls on closed sessions under the pool sanitizer), TestC19OneSidedFEC (FEC at one end only: the other end keeps refusing the OOB calls for the whole connection), TestC19ForeignConvOOB with any conversation id; TestC19OOB also feeds the receiver correctly sealed OOB-typed frames of 0..11 bytes from its peer's address (shorter than any OOB packet: dropped, no handler call, no crash).",
  "C20": " Added later: TestC20GrowEveryOffset - a full ring is grown twice from EVERY head offset at 32 sizes across the three growth regimes (37 544 layouts), compared in full with the model after each growth and drained.",
 }
 for _k, _v in _ADD.items():
